@@ -2,8 +2,8 @@ package ana
 
 import (
 	"fmt"
-	"math/big"
 	"go/types"
+	"math/big"
 	"strconv"
 	"strings"
 
@@ -525,7 +525,7 @@ func (p *pat) match1(t *Term, b Binds) bool {
 		}
 		return true
 	}
-	if n == 2 && t.Op == "bin" && commutative[t.Name] && !isStringTerm(t) && !isStringTerm(t.Args[0]) {
+	if n == 2 && t.Op == "bin" && commutative[t.Name] && !(t.Name == "+" && (isStringTerm(t) || isStringTerm(t.Args[0]))) {
 		// sums and products are kept sorted by the canonicaliser; a pattern with wildcards cannot know the order
 		return try([]int{0, 1}) || try([]int{1, 0})
 	}
